@@ -132,6 +132,8 @@ def is_same_labeling(labeled0, labeled1):
     '''
     labeled0 = _convert_labeled(labeled0)
     labeled1 = _convert_labeled(labeled1)
+    if labeled0.shape != labeled1.shape:
+        return False
     return _labeled.is_same_labeling(labeled0, labeled1)
 
 
